@@ -21,11 +21,12 @@ CHECK = {
         {"name": "surfaces", "run": "^TestC01_Surfaces$", "checks": {"quick": 100, "thorough": 120}, "shards": {"quick": 6, "thorough": 16}, "rounds": {"quick": 3, "thorough": 8}},
         {"name": "lookups", "run": "^TestC01_Lookups$", "checks": {"quick": 20, "thorough": 40}, "shards": {"quick": 4, "thorough": 16}, "rounds": {"quick": 1, "thorough": 3}},
         {"name": "wire", "run": "^TestC01_Wire$", "checks": {"quick": 30, "thorough": 60}, "shards": {"quick": 4, "thorough": 16}, "rounds": {"quick": 2, "thorough": 4}},
+        {"name": "validators", "package": "p_valid", "run": "^TestC01_(HeaderProofInputs|HistoryInputs|StateInputs)$", "checks": {"quick": 2500, "thorough": 20000}, "shards": {"quick": 1, "thorough": 8}},
         {"name": "dialogue", "run": "^TestC01_Dialogue$", "checks": {"quick": 40, "thorough": 80}, "shards": {"quick": 4, "thorough": 16}, "rounds": {"quick": 2, "thorough": 4}},
     ],
     "fuzz": [{"name": "FuzzC01Talk", "time": "120s"}],
     "rule": "rapid draws (network, 1..30 steps {surface, sender, bytes}) resp. (network, 1..25 packets on the portal or uTP channel) resp. a dialogue (reply scripts of a scripted peer per request type + 1..8 actions that make the node issue requests, "
-            "including pings of the peer that announce a newer record so the node asks for it on its own). Keys: empty, selector only, selector + short/32/long body, "
+            "including pings of the peer that announce a newer record so the node asks for it on its own) resp. the structured validator worlds of C02/C03/C13 (constructed headers, proofs and slots that stay consistent with the key; judged here only for 'no panic'). Keys: empty, selector only, selector + short/32/long body, "
             "unknown selector, genuine key with another selector, mutated genuine key; contents: empty, short raw, genuine vector, mutated genuine vector. Non-trivial = a step with a "
             "message of <= 2 bytes or a key of <= 1 byte, an answered request, a processed response, a queued stream, an accepted validation, a successful put, a packet sent over the wire; "
             "distinct = distinct plan digests.",
@@ -34,5 +35,5 @@ CHECK = {
         "hangs are only detected as 'did not return in 60 s' and reported as inconclusive",
     ],
     "required_classes": {"quick": ["talk:len<=2", "talk:answered", "content:len<=2", "pong:processed", "nodes:processed", "offerresp:processed", "stream:queued",
-                                   "validate:accepted", "validate:key-len<=1", "put:ok", "get:key-len<=1", "wire:utp-packet", "wire:portal-packet", "late-replies-after-lookup-ended", "enr-or-nodes-request-answered-from-script", "net:history", "net:beacon", "net:state"]},
+                                   "validate:accepted", "validate:key-len<=1", "put:ok", "get:key-len<=1", "wire:utp-packet", "wire:portal-packet", "late-replies-after-lookup-ended", "enr-or-nodes-request-answered-from-script", "structured-validator-input:header-proof", "structured-validator-input:history-content", "structured-validator-input:state-proof", "net:history", "net:beacon", "net:state"]},
 }
